@@ -13,7 +13,7 @@ int vasprintf(char** outp, const char* fmt, __builtin_va_list va) {
 uint32_t X_vasprintf(uint8_t* outp_, uint8_t* fmt, uint8_t* va) {
   char** outp = (char**)outp_;
 #endif
-  static const char text[] = "message";
+  static const char text[] = "msg";
   char* buf = (char*)malloc(sizeof(text));
   ASSUME(buf != 0);
   for (unsigned i = 0; i < sizeof(text); i++) buf[i] = text[i];
